@@ -66,6 +66,13 @@ func Def[C any](name, rule string, gen func(*rapid.T) C, prop func(C) Outcome) *
 		st := statsFor(e)
 		rapid.Check(t, func(rt *rapid.T) {
 			c := gen(rt)
+			if cur := os.Getenv("VERIF_CURRENT_CASE"); cur != "" {
+				// race-detector runs halt the process at the first report: leave the case behind
+				raw, _ := json.Marshal(c)
+				rf := ReplayFile{Property: propertyID, Entry: e.Name, Case: raw}
+				b, _ := json.Marshal(rf)
+				_ = os.WriteFile(cur, b, 0o644)
+			}
 			out := Guard(func() Outcome { return prop(c) })
 			st.observe(c, out)
 			if out.Fail != nil {
